@@ -1,6 +1,7 @@
 pub mod c08;
 pub mod c11;
 pub mod c12;
+pub mod c16;
 pub mod c20;
 pub mod forest_props;
 
@@ -14,9 +15,10 @@ pub fn engine_for(id: &str) -> Option<Box<dyn PropEngine>> {
         "C08" => Some(Box::new(c08::C08Engine)),
         "C11" => Some(Box::new(c11::engine())),
         "C12" => Some(Box::new(c12::engine())),
+        "C16" => Some(Box::new(c16::C16Engine)),
         "C20" => Some(Box::new(c20::C20Engine)),
         _ => None,
     }
 }
 
-pub const CLAIMED: [&str; 7] = ["C04", "C05", "C06", "C08", "C11", "C12", "C20"];
+pub const CLAIMED: [&str; 8] = ["C04", "C05", "C06", "C08", "C11", "C12", "C16", "C20"];
